@@ -79,6 +79,20 @@ def directed():
             dict(B, kind=kind, name='t3', srcs=[T('t2')], ins=[T('t2')],
                  pch=True),
             dict(B, kind='default', name='t4', deps=['t3'])])
+    # a test whose command names further built files that nothing else needs
+    out.append([
+        dict(B, kind='step', name='t1', ins=[F('d1')]),
+        dict(B, kind='copy', name='t2', ins=[F('s3')]),
+        dict(B, kind='exe', name='t3', srcs=[F('s1')]),
+        dict(B, kind='test', name='t4', deps=['t3', 't1', 't2']),
+        dict(B, kind='exe', name='t5', srcs=[F('s2')])])
+    out.append([
+        dict(B, kind='step', name='t1', ins=[F('d1')], nouts=2),
+        dict(B, kind='exe', name='t2', srcs=[F('s1')]),
+        dict(B, kind='exe', name='t3', srcs=[F('s2')]),
+        dict(B, kind='test', name='t4', deps=['t2', 't1']),
+        dict(B, kind='test', name='t5', deps=['t3']),
+        dict(B, kind='default', name='t6', deps=['t3'])])
     return out
 
 
